@@ -19,7 +19,7 @@ import common
 from common import run_cmds, run_tlc_many
 
 TAGS = {"absent": "absent", "S:hello=world": "hello=world", "S:1 + 1": "1 + 1", "V:two": {"a": 2}, "S:file text": "file text",
-        "V:six": {"b": 6}, "V:sibling": {"s": "sib"}, "LIB:one": "one", "LIB:two": "two", "S:Tdefault": "Tdefault", "N:40": 40}
+        "V:six": {"b": 6}, "V:sibling": {"s": "sib"}, "S:from env": "from env", "LIB:one": "one", "LIB:two": "two", "S:Tdefault": "Tdefault", "N:40": 40}
 FILES = {"j1/lib.libsonnet": '{name: "one"}', "j2/lib.libsonnet": '{name: "two"}', "data.txt": "file text",
          "vars/code.jsonnet": "{b: 2 * 3}", "vars/imp.jsonnet": '{s: (import "sibling.libsonnet").s}',
          "vars/sibling.libsonnet": '{s: "sib"}', "vars/err.jsonnet": 'error "boom"'}
@@ -50,7 +50,9 @@ def expected_value(outcome):
 def argv_of(c):
     a = []
     for which, v in (("ext", c["ext"]), ("tla", c["tla"])):
-        if v["fl"] != "none":
+        if v["fl"] == "env":
+            a += [f"--{which}-str", "e" if which == "ext" else "t"]        # no `=`: the value comes from the environment
+        elif v["fl"] != "none":
             a += [f"--{which}-{FLAG[v['fl']]}", f"{'e' if which == 'ext' else 't'}={PAYLOAD[(v['fl'], v['pl'])]}"]
     if c["jp"] in ("one", "shadow"):
         a += ["-J", "j1"]
@@ -67,7 +69,11 @@ def argv_of(c):
 def lib_cmd(c, src, fmt):
     cmd = {"cmd": "eval", "files": dict(FILES), "src": src, "manifest": fmt, "tla": {}}
     for which, v in (("ext", c["ext"]), ("tla", c["tla"])):
-        if v["fl"] != "none":
+        if v["fl"] == "env":
+            # not a library concept: the library is handed what the environment holds (nothing when unset - the run is a usage error)
+            if v["pl"] == "set":
+                cmd.setdefault(which, {})["e" if which == "ext" else "t"] = {"str": "from env"}
+        elif v["fl"] != "none":
             cmd.setdefault(which, {})["e" if which == "ext" else "t"] = {HKEY[v["fl"]]: PAYLOAD[(v["fl"], v["pl"])]}
     # right-most -J wins: the harness hands FileImportResolver the directories in priority order
     cmd["jpath"] = {"none": [], "one": ["j1"], "shadow": ["j2", "j1"]}[c["jp"]]
@@ -100,7 +106,10 @@ def run_exe(exe, c, d):
     else:
         args.append("-")
         stdin = src.encode()
-    env = {k: v for k, v in os.environ.items() if k not in ("JSONNET_PATH", "JRSONNET_LEGACY_PARSER")}
+    env = {k: v for k, v in os.environ.items() if k not in ("JSONNET_PATH", "JRSONNET_LEGACY_PARSER", "e", "t")}
+    for which, name in (("ext", "e"), ("tla", "t")):
+        if c[which]["fl"] == "env" and c[which]["pl"] == "set":
+            env[name] = "from env"
     try:
         p = subprocess.run(args, cwd=d, input=stdin, stdout=subprocess.PIPE, stderr=subprocess.PIPE, timeout=60, env=env)
         rc, out, err = p.returncode, p.stdout.decode("utf-8", "replace"), p.stderr.decode("utf-8", "replace")
@@ -200,7 +209,10 @@ def run(chk):
         if lv["k"] == "crash":
             chk.disagree(key.replace("c15:cli", "c15:lib"), desc, outcome, lv, "library crashed")
             continue
-        if outcome["k"] == "err":
+        env_unset = any(c[w]["fl"] == "env" and c[w]["pl"] == "unset" for w in ("ext", "tla"))
+        if env_unset:
+            pass                              # the library is never reached: the executable rejects its arguments
+        elif outcome["k"] == "err":
             # the value may still exist when only the output mode does not fit; the run as a whole must fail
             whole = main if main is not None else lv
             if c["out"] in ("S_bad", "y_bad"):
@@ -220,7 +232,7 @@ def run(chk):
                 chk.disagree(key.replace("c15:cli", "c15:lib"), desc, expected_value(outcome), lv, "library API computes a different value for this configuration")
                 continue
         # (2) the executable against Render(model) with the library's text
-        if er["rc"] not in (0, 1) or "panicked" in er["stderr"]:
+        if er["rc"] not in (0, 1, 2) or "panicked" in er["stderr"]:
             chk.disagree(key, desc, render, er, "executable crashed")
             continue
         if render["exit"] == "nonzero":
@@ -258,7 +270,7 @@ def run(chk):
     ccases, ccmds = [], []
     for i, case in enumerate(cases):
         c = case["c"]
-        if c["ext"]["fl"] in ("strfile", "codefile") or c["tla"]["fl"] in ("strfile", "codefile") or c["inp"] == "stdin":
+        if c["ext"]["fl"] in ("strfile", "codefile", "env") or c["tla"]["fl"] in ("strfile", "codefile", "env") or c["inp"] == "stdin":
             continue
         if c["out"] not in ("json", "fstring", "multi", "ystream", "m_bad", "y_bad"):
             continue
